@@ -868,7 +868,10 @@ fn setup_sql(schema: &str, data: &[Vec<Vec<Val>>; 3], index: &str, n: &Names) ->
     let sc = schema_cols(schema);
     let mut out = vec![];
     for (name, cols) in sc.iter() {
-        out.push(format!("CREATE TABLE {} ({} INT, {} INT)", name, cols[0], cols[1]));
+        // "inner_notnull": the inner join key is *declared* NOT NULL (an optimizer may drop its NULL
+        // handling for such a column); only used on data without a NULL in that column
+        let nn = if index == "inner_notnull" && *name == n.u.name.as_str() && cols[0] == n.u.k.as_str() { " NOT NULL" } else { "" };
+        out.push(format!("CREATE TABLE {} ({} INT{}, {} INT)", name, cols[0], nn, cols[1]));
     }
     for (i, (name, _)) in sc.iter().enumerate() {
         if !data[i].is_empty() {
@@ -880,7 +883,7 @@ fn setup_sql(schema: &str, data: &[Vec<Vec<Val>>; 3], index: &str, n: &Names) ->
     let outer = (&n.t.name, &n.t.k);
     let mut idx: Vec<(&String, &String)> = vec![];
     match index {
-        "none" => {}
+        "none" | "inner_notnull" => {}
         "inner_key" => idx.push(inner),
         "outer_key" => idx.push(outer),
         "both_keys" => {
@@ -974,19 +977,19 @@ impl Bounds {
     fn scope(&self, three: bool, weight: usize) -> Scope {
         let mut sc = if self.thorough {
             match (three, weight) {
-                (false, 0) => Scope { rows: (3, 3, 0), total: 6, namings: vec!["qual", "alias", "prefix", "self", "innerbare", "bothbare"], indexes: vec!["none", "inner_key", "outer_key", "both_keys"] },
+                (false, 0) => Scope { rows: (3, 3, 0), total: 6, namings: vec!["qual", "alias", "prefix", "self", "innerbare", "bothbare"], indexes: vec!["none", "inner_key", "outer_key", "both_keys", "inner_notnull"] },
                 (false, 1) => Scope { rows: (3, 3, 0), total: 3, namings: vec!["qual", "prefix", "self", "innerbare", "bothbare", "fkstyle"], indexes: vec!["none", "inner_key"] },
                 (false, _) => Scope { rows: (2, 2, 0), total: 3, namings: vec!["qual", "fkstyle"], indexes: vec!["none", "inner_key"] },
-                (true, 0) => Scope { rows: (2, 2, 2), total: 4, namings: vec!["qual", "alias", "prefix"], indexes: vec!["none", "inner_key", "both_keys"] },
+                (true, 0) => Scope { rows: (2, 2, 2), total: 4, namings: vec!["qual", "alias", "prefix"], indexes: vec!["none", "inner_key", "both_keys", "inner_notnull"] },
                 (true, 1) => Scope { rows: (2, 2, 2), total: 3, namings: vec!["qual", "prefix"], indexes: vec!["none", "inner_key"] },
                 (true, _) => Scope { rows: (1, 1, 1), total: 3, namings: vec!["qual", "prefix"], indexes: vec!["none", "inner_key"] },
             }
         } else {
             match (three, weight) {
-                (false, 0) => Scope { rows: (2, 2, 0), total: 3, namings: vec!["qual", "prefix", "bothbare"], indexes: vec!["none", "inner_key"] },
+                (false, 0) => Scope { rows: (2, 2, 0), total: 3, namings: vec!["qual", "prefix", "bothbare"], indexes: vec!["none", "inner_key", "inner_notnull"] },
                 (false, 1) => Scope { rows: (2, 2, 0), total: 2, namings: vec!["qual"], indexes: vec!["none", "inner_key"] },
                 (false, _) => Scope { rows: (1, 1, 0), total: 2, namings: vec!["qual"], indexes: vec!["none", "inner_key"] },
-                (true, 0) => Scope { rows: (2, 2, 1), total: 3, namings: vec!["qual"], indexes: vec!["none", "inner_key"] },
+                (true, 0) => Scope { rows: (2, 2, 1), total: 3, namings: vec!["qual"], indexes: vec!["none", "inner_key", "inner_notnull"] },
                 (true, _) => Scope { rows: (1, 1, 1), total: 3, namings: vec!["qual"], indexes: vec!["inner_key"] },
             }
         };
@@ -1194,6 +1197,9 @@ pub fn run(tier: &str) -> i32 {
                 }
                 if !b.thorough && n.id != "qual" && *index != "inner_key" {
                     continue; // quick tier: the other namings run on the indexed database only
+                }
+                if *index == "inner_notnull" && (n.id != "qual" || n.self_join || w.data[1].iter().any(|r| matches!(r[0], Val::Null))) {
+                    continue; // declared NOT NULL: only where the inner key column holds no NULL
                 }
                 if start.elapsed().as_secs_f64() > budget_s {
                     item_cut = true;
